@@ -475,11 +475,11 @@ seconds with fraction in µs -/
 def components (v11 : Bool) (v : DT) : List Int :=
   [yearFrom v11 v.year, v.month, v.day, v.us / 3600000000, v.us / 60000000 % 60, v.us % 60000000]
 
-/-- the `[Z]` component of `fn:format-dateTime/date/time` (xpath30_helpers.parse_datetime_marker): the offset of
-the value in minutes — a value without timezone is rendered as `+00:00` (finding F11y: F&O prints nothing) -/
+/-- the `[Z]` component of `fn:format-dateTime/date/time` (xpath30_helpers.parse_datetime_marker, after fix-c11-4): the
+offset of the value in minutes; a value without timezone produces no output -/
 def pictureTz (tz : Option Int) : Option Int :=
   match tz with
-  | none => some 0
+  | none => none
   | some z => some z
 
 /-! ### durations: a duration is (months, µs) -/
